@@ -1,7 +1,100 @@
-/- Driver glue for C05: case lines `c05.<sub> <args…> | <impl…>` (stub until the property is built) -/
+/-
+  Driver glue for C05.
+    c05.gated <std|lowmem> <cap> <nreaders> <script…> | <blocks…>     (same format as c04.pool)
+-/
 import FileD.Prelude.Tok
+import FileD.Drv.PoolTrace
+import FileD.Spec.C05
+import FileD.Model.Life
+import FileD.Prelude.TS
 namespace FileD.DrvC05
+open FileD
 
-def handle (_cmd : String) (_args _impl : List String) : Option (String × String) := none
+def handleGated (args impl : List String) : Option (String × String) := do
+  let (m, bs, _, cap) ← Drv.PoolTrace.run args impl
+  if m = "bad-impl" then pure (m, "bad-impl") else
+  pure (m, if SpecC05.holds cap bs then "ok" else "fail")
+
+/-! c05.free <kind> <cap> <n> <iters> <seed> | g<r>.<e> b<r> u<n> … [wedged] end <inUse> <waiters> -/
+
+def parseFree : Nat → List String → Option (List SpecC05.FOp)
+  | _, [] => some []
+  | 0, _ => none
+  | _ + 1, ["end", a, w] => do pure [.fin (← Tok.nat? a) (← Tok.nat? w)]
+  | k + 1, t :: ts => do
+    let rest ← parseFree k ts
+    if t = "wedged" then pure (.wedged :: rest) else
+    match t.toList with
+    | 'g' :: cs =>
+      match (String.ofList cs).splitOn "." with
+      | [r, e] => pure (.got (← Tok.nat? r) (← Tok.int? e) :: rest)
+      | _ => none
+    | 'b' :: cs => pure (.back (← Tok.nat? (String.ofList cs)) :: rest)
+    | 'u' :: cs => pure (.sample (← Tok.nat? (String.ofList cs)) :: rest)
+    | _ => none
+
+def replayFree (cap : Nat) (ops : List SpecC05.FOp) : String × Bool :=
+  let rec go (p : SpecC05.APool) (i : Nat) (acc : List String) : List SpecC05.FOp → String × Bool
+    | [] => (Tok.unwords acc.reverse, true)
+    | op :: rest =>
+      match p.step? op with
+      | none => (Tok.unwords (acc.reverse ++ [s!"reject@{i}", op.render]), false)
+      | some p' => go p' (i + 1) (op.render :: acc) rest
+  go { cap := cap } 0 [] ops
+
+def handleFree (args impl : List String) : Option (String × String) :=
+  match args with
+  | _kind :: cap :: _ => do
+    let cap ← Tok.nat? cap
+    match parseFree (impl.length + 1) impl with
+    | none => pure ("bad-impl", "bad-impl")
+    | some ops =>
+      let (m, ok) := replayFree cap ops
+      pure (m, if ok ∧ ops.getLast?.any (fun o => match o with | .fin .. => true | _ => false) then "ok" else "fail")
+  | _ => none
+
+/-! c05.pipe <kind> <cap> <parallel> <nsrc> <k>… | e <off> <k> <fins…> ; … maxok <b> end <inUse> <waiters> -/
+
+def kindOf (k : String) : Option Life.Kind :=
+  if k = "p" then some .pass else if k = "d" then some .discard else if k = "h" then some .hold
+  else if k = "x" then some .decErr else if k = "r" then some .refused else none
+
+/-- the model's prediction: run every event's canonical script through Life.step? (capacity
+    permitting one at a time) and print what the finalize trace point would have shown -/
+def predictPipe (cap : Nat) (kinds : List Life.Kind) : Option String := do
+  let idx := List.range kinds.length
+  let ops := (idx.zip kinds).flatMap (fun (i, k) => Life.script i k)
+  let s ← TS.run Life.step? (Life.init cap kinds) ops
+  let evs := (idx.zip (s.evs.zip kinds)).map fun (i, e, k) =>
+    let kl := match k with | .pass => "p" | .discard => "d" | .hold => "h" | .decErr => "x" | .refused => "r"
+    Tok.unwords (["e", toString ((i + 1) * 10), kl] ++ e.fins.map toString ++ [";"])
+  pure (Tok.unwords (evs ++ ["maxok", "1", "end", toString s.inUse, "0"]))
+
+/-- property on the observation alone -/
+def pipeVerdict (impl : List String) : Bool :=
+  let rec go : Nat → List String → Bool
+    | 0, _ => false
+    | _ + 1, ["maxok", b, "end", a, w] => b == "1" && a == "0" && w == "0"
+    | k + 1, "e" :: _off :: kd :: ts =>
+      let fins := ts.takeWhile (· ≠ ";")
+      let rest := (ts.dropWhile (· ≠ ";")).drop 1
+      SpecC05.pipeEventOk kd (fins.filterMap String.toNat?) && fins.all (·.toNat?.isSome) && go k rest
+    | _ + 1, _ => false
+  go (impl.length + 1) impl
+
+def handlePipe (args impl : List String) : Option (String × String) :=
+  match args with
+  | _kind :: cap :: _par :: _nsrc :: ks => do
+    let cap ← Tok.nat? cap
+    let kinds ← ks.mapM kindOf
+    let m ← predictPipe cap kinds
+    pure (m, if pipeVerdict impl then "ok" else "fail")
+  | _ => none
+
+def handle (cmd : String) (args impl : List String) : Option (String × String) :=
+  if cmd = "c05.gated" then handleGated args impl
+  else if cmd = "c05.free" then handleFree args impl
+  else if cmd = "c05.pipe" then handlePipe args impl
+  else none
 
 end FileD.DrvC05
